@@ -4,7 +4,7 @@ CONSTANTS
   MaxZ = 4
   Modes = {"default", "zone"}
   MinHedge = {0, 1, 3}
-  Terminals = {FALSE}
+  Preds = {"never"}
   GenCancel = FALSE
   NoCancels = {TRUE, FALSE}
 INIT GInit
